@@ -50,7 +50,7 @@ def main():
         import os as _os
         _rp = _json.load(open(ck.replay_arg if _os.path.isabs(ck.replay_arg) else _os.path.join(common.VERIF, ck.replay_arg)))
         _d = _rp.get("replay", {})
-        if not _d.get("stub_case") and str(_d.get("network", "")).startswith(("sc_fixed", "sc_rand", "wnet")) and _d.get("options"):
+        if not _d.get("stub_case") and str(_d.get("network", "")).startswith(("sc_fixed", "sc_rand", "wnet", "ns_")) and _d.get("options"):
             net_replay.append((_d, int(_rp.get("seed", 0))))
             print("replaying:", _rp.get("what", "")[:300])
     accs = list(Accelerator)
@@ -1283,7 +1283,11 @@ def main():
                         src = srcs.get(pop.ofm.name) or srcs.get(pop.name)
                     ck.count("emitted_expected_from_" + ("source_file" if src is not None else "optimised_graph"))
                     items.append((k, cmd, src))
-                    q_lines.append(c08_pipe.prepq_line_source(src) if src is not None else c08_pipe.prepq_line_graph(wc, pop, pop.bias))
+                    # the tensor written is the result of a later (clamp-only) operator fused into the pass: its quantisation counts
+                    fin = c08_pipe.fused_result_scale(cmd, net)
+                    if fin is not None:
+                        ck.count("emitted_ops_result_of_fused_later_op")
+                    q_lines.append(c08_pipe.prepq_line_source(src, fin) if src is not None else c08_pipe.prepq_line_graph(wc, pop, pop.bias, fin))
                 jobs.append((art, hit, items))
             q_out = iter(ck.model(q_lines))
             e_lines, e_meta = [], []
@@ -1396,6 +1400,18 @@ def main():
             print("VIOLATION (replayed):", w_[:400])
         for k_, w_ in ck.known_hits.items():
             print("KNOWN-FINDING (replayed):", k_)
+        raise SystemExit(1 if (ck.violations or ck.known_hits) else 0)
+
+    # ---- (0b) nearly-equal scales around every requantising boundary (family `near_scale`, harness/gen_nearscale.py) ----
+    for nm_, net_, opts_ in c08_pipe.near_scale_jobs(netgen, ck.seed, T, net_replay):
+        ck.count("near_scale_nets")
+        if net_replay:
+            print("network:", net_.desc[-1], "options:", " ".join(opts_))
+            ck.known_hits.clear()
+        compile_and_check(nm_, netgen.serialize(net_), opts_, net=net_)
+    if net_replay and net_replay[0][0]["network"].startswith("ns_"):
+        for w_, p_, _f in ck.violations:
+            print("VIOLATION (replayed):", w_[:400])
         raise SystemExit(1 if (ck.violations or ck.known_hits) else 0)
 
     def conv_pair_net():
